@@ -2,7 +2,7 @@
    Only ExtrOcamlBasic (bool, option, list, pairs, unit -> OCaml natives);
    Z, positive, N, nat stay extracted datatypes; no Extract Constant. *)
 From Coq Require Import Extraction ExtrOcamlBasic.
-From PV Require Import Base Heap Rng NND.
+From PV Require Import Base Heap Rng NND Diversify.
 Extraction Language OCaml.
 Set Extraction KeepSingleton.
 Extraction "../ocaml/model.ml"
@@ -14,4 +14,5 @@ Extraction "../ocaml/model.ml"
   NND.init_heap_from_indices NND.init_heap_from_indices_and_distances
   NND.new_build_candidates NND.generate_graph_updates NND.generate_leaf_updates
   NND.apply_graph_updates_low_memory NND.apply_graph_updates_high_memory
-  NND.thresholds NND.deheap_graph NND.nn_descent.
+  NND.thresholds NND.deheap_graph NND.nn_descent
+  Diversify.diversify Diversify.diversify_row Diversify.diversify_csr_row.
